@@ -139,6 +139,8 @@ def register(R):
                          "pow2(old(self._bucket_row_list.size) - 1))"],
                calls={M + ":_BucketRow.remove_buckets": "contract", M + ":_BucketRowList.remove_tail": "contract"},
                check_invariant=False,
+               # the trailing loop drops exhausted rows at the tail (it only touches the row list, never the statistics)
+               loops={0: {"invariant": [], "havoc_fields": {"_bucket_row_list": "Obj[_BucketRowList]"}}},
                modifies=["_window_size", "_curr_total", "_curr_variance"])
     # bucket-row primitives (verified): shifting the arrays forward drops the oldest buckets and zero-fills the end
     R.contract(M + ":_BucketRow.shift", tags=("C03",), params={"arr": "Vec", "num": "Int", "fill_value": "Real"}, modular=True,
